@@ -83,6 +83,10 @@ def run(ctx, rep):
     past_hash_cleared_rule(P, rep, 'R-C07-3d')
     from .C11 import need_write_rule
     need_write_rule(P, rep, 'R-C07-8')
+    # the pre-sync save must keep the DELETED blocks of a disk without files: they are the memory of a pending parity update
+    from .C10 import empty_disk_rule, empty_disk_search_rule
+    empty_disk_rule(P, rep, 'R-C07-9')
+    empty_disk_search_rule(P, rep, 'R-C07-9s')
     from ..guards import guards_of
     def hash_writers(f):
         res = []
